@@ -192,6 +192,167 @@ func govcAwaitSources() string {
 	return ""
 }
 
+// ---- Once ----
+
+// never two calls at once; a success is kept: later and concurrent Resolves get it, no further call
+func govcOnceSuccess() string {
+	var active, calls atomic.Int32
+	var overlap atomic.Bool
+	o := NewOnce(func(ctx context.Context) (int, error) {
+		if active.Add(1) > 1 {
+			overlap.Store(true)
+		}
+		time.Sleep(2 * time.Millisecond)
+		active.Add(-1)
+		return int(calls.Add(1)), nil
+	})
+	var wg sync.WaitGroup
+	bad := make(chan string, 16)
+	for i := 0; i < 8; i++ {
+		wg.Add(1)
+		go func() {
+			defer wg.Done()
+			for k := 0; k < 5; k++ {
+				v, err := o.Resolve(context.Background())
+				if err != nil || v != 1 {
+					bad <- fmt.Sprintf("Resolve returned (%d, %v); the first successful call returned 1", v, err)
+					return
+				}
+			}
+		}()
+	}
+	wg.Wait()
+	select {
+	case m := <-bad:
+		return m
+	default:
+	}
+	if overlap.Load() {
+		return "the function of a Once was running twice at the same time"
+	}
+	if calls.Load() != 1 {
+		return fmt.Sprintf("the function was called %d times although its first call succeeded", calls.Load())
+	}
+	return ""
+}
+
+// after an error a later Resolve calls again; concurrent resolvers never see an older error after a newer one
+func govcOnceRetry() string {
+	var calls atomic.Int32
+	o := NewOnce(func(ctx context.Context) (int, error) {
+		return 0, fmt.Errorf("%d", calls.Add(1))
+	})
+	bad := make(chan string, 16)
+	var wg sync.WaitGroup
+	for g := 0; g < 8; g++ {
+		wg.Add(1)
+		go func() {
+			defer wg.Done()
+			last := 0
+			for k := 0; k < 300; k++ {
+				_, err := o.Resolve(context.Background())
+				if err == nil {
+					bad <- "Resolve returned nil although the function always fails"
+					return
+				}
+				var n int
+				fmt.Sscan(err.Error(), &n)
+				if n <= last {
+					bad <- fmt.Sprintf("a Resolve started after failure %d had been returned was served failure %d again: the function was not called again", last, n)
+					return
+				}
+				last = n
+			}
+		}()
+	}
+	wg.Wait()
+	select {
+	case m := <-bad:
+		return m
+	default:
+	}
+	return ""
+}
+
+// the initiator is cancelled: it gets context.Canceled, the others still obtain a result
+func govcOnceInitiatorCancelled() string {
+	var calls atomic.Int32
+	o := NewOnce(func(ctx context.Context) (int, error) {
+		if calls.Add(1) == 1 {
+			<-ctx.Done()
+			return 0, ctx.Err()
+		}
+		return 42, nil
+	})
+	actx, acancel := context.WithCancel(context.Background())
+	ares := make(chan error, 1)
+	go func() { _, err := o.Resolve(actx); ares <- err }()
+	time.Sleep(30 * time.Millisecond)
+	type r struct {
+		v   int
+		err error
+	}
+	res := make(chan r, 3)
+	for i := 0; i < 3; i++ {
+		go func() { v, err := o.Resolve(context.Background()); res <- r{v, err} }()
+	}
+	time.Sleep(30 * time.Millisecond)
+	acancel()
+	select {
+	case err := <-ares:
+		if err != context.Canceled {
+			return fmt.Sprintf("the cancelled caller got %v, want context.Canceled", err)
+		}
+	case <-time.After(govcGrace):
+		return "the cancelled caller did not return"
+	}
+	for i := 0; i < 3; i++ {
+		select {
+		case x := <-res:
+			if x.err != nil || x.v != 42 {
+				return fmt.Sprintf("a caller with a live context got (%d, %v) after the initiator was cancelled; want (42, nil)", x.v, x.err)
+			}
+		case <-time.After(govcGrace):
+			return "a caller with a live context stayed blocked after the initiator was cancelled"
+		}
+	}
+	return ""
+}
+
+// the function succeeds after the initiator has left: the success is kept
+func govcOnceLateSuccess() string {
+	var calls atomic.Int32
+	release := make(chan struct{})
+	o := NewOnce(func(ctx context.Context) (int, error) {
+		n := calls.Add(1)
+		if n == 1 {
+			<-release
+		}
+		return 100 + int(n), nil
+	})
+	actx, acancel := context.WithCancel(context.Background())
+	go func() { _, _ = o.Resolve(actx) }()
+	time.Sleep(30 * time.Millisecond)
+	bres := make(chan int, 1)
+	go func() { v, _ := o.Resolve(context.Background()); bres <- v }()
+	time.Sleep(30 * time.Millisecond)
+	acancel()
+	time.Sleep(30 * time.Millisecond)
+	close(release)
+	select {
+	case v := <-bres:
+		if v != 101 || calls.Load() != 1 {
+			return fmt.Sprintf("the function returned (101, nil) after its initiator had been cancelled; a waiter got %d and the function was called %d times", v, calls.Load())
+		}
+	case <-time.After(govcGrace):
+		return "a waiter stayed blocked although the function returned successfully"
+	}
+	if v, _ := o.Resolve(context.Background()); v != 101 || calls.Load() != 1 {
+		return fmt.Sprintf("a later Resolve got %d (calls=%d) after a successful call returned 101", v, calls.Load())
+	}
+	return ""
+}
+
 func TestGovcReplay(t *testing.T) {
 	path := os.Getenv("GOVC_REPLAY_FILE")
 	if path == "" {
@@ -214,6 +375,8 @@ func TestGovcReplay(t *testing.T) {
 	}
 	var scenarios []func() string
 	switch {
+	case strings.Contains(rf.Obligation, "Once)") || strings.Contains(rf.Obligation, "NewOnce"):
+		scenarios = append(scenarios, govcOnceSuccess, govcOnceRetry, govcOnceInitiatorCancelled, govcOnceLateSuccess)
 	case strings.Contains(rf.Obligation, "PromiseContainer") && strings.Contains(rf.Obligation, "backedge"):
 		scenarios = append(scenarios, func() string { return govcCanceledResult(which) })
 	case strings.Contains(rf.Obligation, "PromiseContainer") && strings.Contains(rf.Obligation, "invoke1"):
@@ -221,7 +384,7 @@ func TestGovcReplay(t *testing.T) {
 	case strings.Contains(rf.Obligation, "PromiseContainer"):
 		scenarios = append(scenarios, govcFollow, func() string { return govcCanceledResult(which) }, func() string { return govcOwnChannel("AwaitWithErrCh") })
 	default:
-		scenarios = append(scenarios, govcSingleAssignment, govcAwaitSources)
+		scenarios = append(scenarios, govcSingleAssignment, govcAwaitSources, govcOnceSuccess, govcOnceRetry)
 	}
 	verdict := "NOT-REPRODUCED"
 	for _, s := range scenarios {
